@@ -49,7 +49,9 @@ theorem c17_attach_once (r : Rep) (h : r.isOpen = true) (p : Bool) : r.step (.op
     controller sets WO or RW -/
 theorem c17_reopen_resets_mode (r : Rep) (h : r.isOpen = true) (p : Bool) :
     (r.step (.reopen p)).1.mode = .init ∧ (r.step .close).1.mode = .init := by
-  unfold Rep.step; simp [h]
+  unfold Rep.step; simp only [h, Bool.not_true, Bool.false_eq_true, if_false]
+  refine ⟨?_, by first | rfl | trivial⟩
+  split <;> rfl
 
 example : ((Rep.init 8 4).run [.setMode .rw, .write 0 8 1, .close, .write 0 8 2, .open_ true, .write 0 8 3]).rev = 2 := by
   decide
